@@ -506,6 +506,13 @@ func c02run(out *rec.Out, c c02case, rng *rec.Rng, tier string, stats map[string
 		for i := 0; i+1 < c.n; i++ {
 			startWith(i)
 			in.Quiesce(q)
+			if i == 0 && (c.shape == "ste" || c.shape == "pjoin" || c.shape == "se") {
+				// the caller REPEATS the call for the same start event (it has fired: nothing new starts, and it does not
+				// count as another start event having fired)
+				startWith(0)
+				in.Quiesce(q)
+				stats["startwith_repeated_for_the_same_start_event"]++
+			}
 		}
 		// the tokens of the fired start events run to their ends
 		c02answerAll(in, rng, q)
